@@ -217,10 +217,14 @@ DoStartBody(s, i) ==
    pendingFinalTaskStateCh <- KILLED; kill(-pid, SIGKILL).  ProcessState is nil until Wait returned.
    outcome: "ok" (answered), "err" (answered with the kill error), "panic", "hung" *)
 GroupThere(s) == s.child \in {"running", "exiting"} \/ s.grand   \* ("waited": the shell is reaped already)
-StopKillPath(s, i) ==
-  IF s.pend # "none"
-    THEN {[s EXCEPT !.hs[i].pc = "hung"]}            \* second send on the 1-slot channel nobody reads
-    ELSE {[s EXCEPT !.pend = "KILLED", !.hs[i].pc = "kill"]}
+StopKillPath(s, i) == {[s EXCEPT !.hs[i].pc = "push"]}
+(* ... pendingFinalTaskStateCh <- KILLED - a separate step from the ProcessState test: the reaper may return
+   from Wait and pass its select in between (then the value stays in the channel).  The send blocks while
+   the one slot is taken; it goes on when the reaper empties it, and blocks for ever if the reaper is gone. *)
+DoStopPush(s, i) ==
+  IF i \in 1..Len(s.hs) /\ s.hs[i].pc = "push" /\ s.pend = "none" /\ Ok(s)
+    THEN {[s EXCEPT !.pend = "KILLED", !.hs[i].pc = "kill"]}
+    ELSE {}
 (* ... syscall.Kill(-pid, SIGKILL) - a separate step: the reaper may take the pending state and reap in between *)
 DoStopKill(s, i) ==
   IF i \in 1..Len(s.hs) /\ s.hs[i].pc = "kill" /\ Ok(s)
@@ -366,6 +370,11 @@ DoKClose(s, i) ==
          ELSE {[s EXCEPT !.rpc = "nil", !.closeBy = ReqOf(s, i), !.pend = IF s.hs[i].reached = "DONE" THEN "FINISHED" ELSE "KILLED",
                          !.hs[i].pc = "term"]}
     ELSE {}
+(* ... a send that found the slot taken goes on once the reaper has emptied it *)
+DoKUnblock(s, i) ==
+  IF IsK(s, i, "hung") /\ s.pend = "none"
+    THEN {[s EXCEPT !.pend = IF s.hs[i].reached = "DONE" THEN "FINISHED" ELSE "KILLED", !.hs[i].pc = "term"]}
+    ELSE {}
 (* ... pidExists(pid) ? doTermIntKill(pid) : return.  pid is the device's own pid (GetState), not the group *)
 Obeys(s) == s.beh # "ignore"
 DoKTerm(s, i) ==
@@ -394,8 +403,8 @@ HIdx(s) == 1..Len(s.hs)
 Succ(s) ==
   DoLaunch(s) \cup UNION {DoReq(s, r) : r \in Reqs} \cup DoRelease(s) \cup DoProc(s) \cup DoTimer(s)
   \cup DoReaperStart(s) \cup DoWaitRet(s) \cup DoReap(s) \cup DoLDial(s) \cup DoLDialTimeout(s) \cup DoLPoll(s) \cup DoLPollTimeout(s) \cup DoLWaitRet(s) \cup DoLWait(s)
-  \cup UNION {DoNoopBody(s, i) \cup DoRespond(s, i) \cup DoStartBody(s, i) \cup DoStopBody(s, i) \cup DoStopKill(s, i) \cup DoKillBodyBasic(s, i)
-              \cup DoKillSend(s, i) \cup DoTransBody(s, i) \cup DoTransCommit(s, i) \cup DoKBody(s, i) \cup DoKClose(s, i) \cup DoKTerm(s, i) \cup DoKInt(s, i)
+  \cup UNION {DoNoopBody(s, i) \cup DoRespond(s, i) \cup DoStartBody(s, i) \cup DoStopBody(s, i) \cup DoStopPush(s, i) \cup DoStopKill(s, i) \cup DoKillBodyBasic(s, i)
+              \cup DoKUnblock(s, i) \cup DoKillSend(s, i) \cup DoTransBody(s, i) \cup DoTransCommit(s, i) \cup DoKBody(s, i) \cup DoKClose(s, i) \cup DoKTerm(s, i) \cup DoKInt(s, i)
               \cup DoKKill9(s, i) \cup DoKEnd(s, i) : i \in HIdx(s)}
 
 Init == \E k \in Kinds : \E b \in BehsOf(k) : \E h \in Holds :
@@ -419,6 +428,8 @@ NoopBody(i) == \E t \in DoNoopBody(S, i) : Set(t)
 Respond(i) == \E t \in DoRespond(S, i) : Set(t)
 StartBody(i) == \E t \in DoStartBody(S, i) : Set(t)
 StopBody(i) == \E t \in DoStopBody(S, i) : Set(t)
+StopPush(i) == \E t \in DoStopPush(S, i) : Set(t)
+KUnblock(i) == \E t \in DoKUnblock(S, i) : Set(t)
 StopKill(i) == \E t \in DoStopKill(S, i) : Set(t)
 KillBodyBasic(i) == \E t \in DoKillBodyBasic(S, i) : Set(t)
 KillSend(i) == \E t \in DoKillSend(S, i) : Set(t)
@@ -434,7 +445,7 @@ KEnd(i) == \E t \in DoKEnd(S, i) : Set(t)
 Next ==
   \/ Launch \/ (\E r \in Reqs : Req(r)) \/ Release \/ Proc \/ Timer \/ ReaperStart \/ WaitRet \/ Reap
   \/ LDial \/ LDialTimeout \/ LPoll \/ LPollTimeout \/ LWaitRet \/ LWait
-  \/ \E i \in 1..MaxReq : NoopBody(i) \/ Respond(i) \/ StartBody(i) \/ StopBody(i) \/ StopKill(i) \/ KillBodyBasic(i) \/ KillSend(i)
+  \/ \E i \in 1..MaxReq : NoopBody(i) \/ Respond(i) \/ StartBody(i) \/ StopBody(i) \/ StopPush(i) \/ KUnblock(i) \/ StopKill(i) \/ KillBodyBasic(i) \/ KillSend(i)
                           \/ TransBody(i) \/ TransCommit(i) \/ KBody(i) \/ KClose(i) \/ KTerm(i) \/ KInt(i) \/ KKill9(i) \/ KEnd(i)
 
 Spec == Init /\ [][Next]_vars
@@ -472,5 +483,5 @@ NoSurvivorsX == NoSurvivors \/ Class("NoSurvivors", doneBy) \in Known
 ExecutorSurvivesX == ExecutorSurvives \/ Class("ExecutorSurvives", panBy) \in Known
 
 (* a handler goroutine blocked for ever on the one-slot channel (observation, not part of the property) *)
-NoStuckHandler == \A i \in 1..Len(hs) : hs[i].pc # "hung"
+NoStuckHandler == \A i \in 1..Len(hs) : ~(hs[i].pc \in {"hung", "push"} /\ pend # "none" /\ child \in {"waited", "reaped"})
 =============================================================================
